@@ -301,8 +301,13 @@ node<P> CoverTreeWrapper<P, DistanceCallback>::batch_create(DistanceCallback& dc
 
     ScalarType max_dist = max_set(point_set);
 
-    node<P> top =
-        batch_insert(dcb, points[0], get_scale(max_dist), get_scale(max_dist), point_set, consumed_set, stack);
+    // log() and pow() round: make sure that the top level covers the farthest point,
+    // batch_insert silently leaves farther points out of the tree
+    int top_scale = get_scale(max_dist);
+    while (dist_of_scale(top_scale) < max_dist)
+        top_scale++;
+
+    node<P> top = batch_insert(dcb, points[0], top_scale, top_scale, point_set, consumed_set, stack);
     // Data of wide dynamic range produce nodes of scale 100 and more
     if (leaf_scale > 100)
         set_leaf_scale(top, leaf_scale);
